@@ -55,7 +55,8 @@ def layer_fullname(spec, ref):
         return UNIT_NAME
     if isinstance(ref, str):
         return ref
-    return '%slayers.%s' % (spec['mp'], spec['layers'][ref]['name'])
+    L = spec['layers'][ref]
+    return '%s%slayers.%s' % (L.get('modp', ''), spec['mp'], L['name'])
 
 
 def layer_index(spec, fullname):
